@@ -1,4 +1,103 @@
-/- driver operations of C12 (stub: no model yet) -/
+import EvoModel.Model.Stats
+import EvoModel.Model.StrHex
+/-! driver operations of C12 (statistics, units, result bookkeeping) -/
 namespace Evo.Drv.C12
-def handle (_op : String) (_args : List String) : Option String := none
+open Evo Evo.Stats Evo.Gen.Units Evo.StrHex
+
+def unitOf (s : String) : Option U := U.all.find? (fun u => u.name = s)
+def relOf (s : String) : Option Rel := Rel.all.find? (fun r => toString (repr r) = "Evo.Gen.Units.Rel." ++ s)
+
+def boolOf (s : String) : Option Bool :=
+  if s = "1" then some true else if s = "0" then some false else none
+
+def toV3s : List Rat → List (V3 Rat)
+  | x :: y :: z :: r => ⟨x, y, z⟩ :: toV3s r
+  | _ => []
+
+def showComp (c : Companions) : String :=
+  " | ".intercalate [showNats c.stored, showRats c.seconds, showRats c.timestamps, showNats c.poseOf,
+    showRats c.refStepSq, showRats c.estStepSq, toString c.skip]
+
+def showNaming : Option Naming → String
+  | none => "REFUSED"
+  | some n => n.unit.name ++ " " ++ hex n.label ++ " " ++ hex n.titleHead
+
+def optUnit (s : String) : Option (Option U) :=
+  if s = "-" then some none else (unitOf s).map some
+
+/-- ops:
+  `stats k e…`                              → `rmse² mean median std² min max sse`
+  `factor u v`                              → `q piPow` | `REFUSED`
+  `cu u piPow v k e…`                       → `v piPow e'…` | `REFUSED`
+  `classify u v`                            → constructor of `Obs`
+  `hist new|old namehex u v k e…`           → `hex(label) unitAtCreation | result array | pe unit | pe array`
+  `ape k ts… 3k pr… 3k pe…`                 → companions
+  `rpe k ts… 3k pr… 3k pe… m ids…`          → companions
+  `ratio k ref… k est… k ids…`              → `ids | values`
+  `naming ape rel chg|- nprobe`             → `unit hex(label) hex(title)` | `REFUSED`
+  `naming rpe rel chg|- nprobe deltahex deltaUnit allPairs`
+  `suffix align correctScale alignOrigin n planehex|-` → hex(suffix) -/
+def handle (op : String) (args : List String) : Option String :=
+  match op, args with
+  | "stats", rest => do
+      let (e, _) ← readRatList rest
+      let s := allStats e
+      some (showRats [s.rmseSq, s.mean, s.median, s.stdSq, s.min, s.max, s.sse])
+  | "factor", [u, v] => do
+      let u ← unitOf u; let v ← unitOf v
+      match factor u v with
+      | none => some "REFUSED"
+      | some f => some (showRat f.q ++ " " ++ toString f.piPow)
+  | "cu", u :: k :: v :: rest => do
+      let u ← unitOf u; let v ← unitOf v; let k ← k.toInt?
+      let (e, _) ← readRatList rest
+      match changeUnit { unit := u, error := e, piPow := k } v with
+      | none => some "REFUSED"
+      | some pe => some (pe.unit.name ++ " " ++ toString pe.piPow ++ " " ++ showRats pe.error)
+  | "classify", [u, v] => do
+      let u ← unitOf u; let v ← unitOf v
+      some (match classify u v with
+        | .noop => "noop" | .refusedUntouched => "refusedUntouched" | .refusedTouched => "refusedTouched"
+        | .other => "other" | .scaled q k => "scaled " ++ showRat q ++ " " ++ toString k)
+  | "hist", which :: name :: u :: v :: rest => do
+      let name ← unhex name
+      let u ← unitOf u; let v ← unitOf v
+      let (e, _) ← readRatList rest
+      let h0 : Heap := [e]
+      let pe0 : PEObj := ⟨u, 0⟩
+      let res := getResultH name pe0
+      let (h1, pe1) ← (if which = "new" then some (changeUnitH h0 pe0 v)
+                        else if which = "old" then some (changeUnitHOld h0 pe0 v) else none)
+      some (hex res.label ++ " " ++ res.unitAtCreation.name ++ " | " ++ showRats (h1.getD res.addr [])
+            ++ " | " ++ pe1.unit.name ++ " | " ++ showRats (h1.getD pe1.addr []))
+  | "ape", rest => do
+      let (ts, rest) ← readRatList rest
+      let (pr, rest) ← readRatList rest
+      let (pe, _) ← readRatList rest
+      some (showComp (apeResultArrays ts (toV3s pr) (toV3s pe)))
+  | "rpe", rest => do
+      let (ts, rest) ← readRatList rest
+      let (pr, rest) ← readRatList rest
+      let (pe, rest) ← readRatList rest
+      let (ids, _) ← readNatList rest
+      some (showComp (rpeResultArrays ts (toV3s pr) (toV3s pe) ids))
+  | "ratio", rest => do
+      let (r, rest) ← readRatList rest
+      let (e, rest) ← readRatList rest
+      let (ids, _) ← readNatList rest
+      let (a, b) := ratioFilter r e ids
+      some (showNats a ++ " | " ++ showRats b)
+  | "naming", "ape" :: rel :: chg :: n :: _ => do
+      let rel ← relOf rel; let chg ← optUnit chg; let n ← n.toNat?
+      some (showNaming (apeNaming rel chg (List.replicate n 1)))
+  | "naming", "rpe" :: rel :: chg :: n :: d :: du :: ap :: _ => do
+      let rel ← relOf rel; let chg ← optUnit chg; let n ← n.toNat?
+      let d ← unhex d; let du ← unitOf du; let ap ← boolOf ap
+      some (showNaming (rpeNaming rel chg (List.replicate n 1) d du ap))
+  | "suffix", [a, c, o, n, p] => do
+      let a ← boolOf a; let c ← boolOf c; let o ← boolOf o; let n ← n.toInt?
+      let p ← (if p = "-" then some none else (unhex p).map some)
+      some (hex (titleSuffix a c o n p))
+  | _, _ => none
+
 end Evo.Drv.C12
